@@ -57,13 +57,13 @@ theorem upd_nstore (c : Cluster Desc) (n : Nat) (f : Node Desc → Node Desc) (i
   · rw [if_pos h, if_pos h]; cases c.nodes[i]? <;> rfl
   · rw [if_neg h, if_neg h]
 
-/-- every event except a restart only grows every node's store -/
-def notRestart : Event Desc → Prop
-  | .restart _ => False
+/-- every event except a restart OF THAT NODE only grows the node's store -/
+def notRestartOf (i : Nat) : Event Desc → Prop
+  | .restart n => n ≠ i
   | _ => True
 
 theorem step_mono (hU : Univ U) (hT : TombClosed U) {cfg : Cfg} (hcfg : cfg.lit = 0) {c : Cluster Desc} (hinv : Inv U c)
-    (ev : Event Desc) (hev : GoodEv U c.clock ev) (hnr : notRestart ev) (i : Nat) :
+    (ev : Event Desc) (hev : GoodEv U c.clock ev) (i : Nat) (hnr : notRestartOf i ev) :
     StoreLe (nstore c i) (nstore (stepC cfg c ev) i) := by
   -- all node updates have the shape `c.upd n f` with `f` growing the store
   have key : ∀ (n : Nat) (f : Node Desc → Node Desc), (∀ nd ∈ c.nodes, StoreLe nd.store (f nd).store) →
@@ -112,8 +112,25 @@ theorem step_mono (hU : Univ U) (hT : TombClosed U) {cfg : Cfg} (hcfg : cfg.lit 
     intro nd _
     show StoreLe nd.store (nd.notifs.foldl notifySync nd).store
     rw [(foldl_notifySync nd.notifs nd).1]; exact StoreLe.refl _
-  | restart n => exact absurd hnr (by simp [notRestart])
+  | restart n =>
+    have hne : i ≠ n := fun e => hnr e.symm
+    simp only [stepC]
+    rw [upd_nstore, if_neg hne]; exact StoreLe.refl _
+  | delete n k => exact absurd hev (by simp [GoodEv])
+  | cleanup n => exact absurd hev (by simp [GoodEv])
   | tick => exact StoreLe.refl _
+
+/-- along a run in which node `i` is not restarted its store only grows -/
+theorem run_mono (hU : Univ U) (hT : TombClosed U) {cfg : Cfg} (hcfg : cfg.lit = 0) (es : List (Event Desc))
+    {c : Cluster Desc} (hinv : Inv U c) (hes : GoodRun U cfg c es) (i : Nat) (hnr : ∀ e ∈ es, notRestartOf i e) :
+    StoreLe (nstore c i) (nstore (runC cfg c es) i) := by
+  induction es generalizing c with
+  | nil => exact StoreLe.refl _
+  | cons e es ih =>
+    rw [runC_cons]
+    exact (step_mono hU hT hcfg hinv e hes.1 i (hnr e (by simp))).trans
+      (ih (inv_step hU hT hcfg hinv e hes.1) hes.2 (fun x hx => hnr x (by simp [hx])))
+
 
 /-! ## full-state exchange -/
 
